@@ -132,11 +132,18 @@ type txSetKeys struct {
 	newKeys []asn1.Key
 	current int
 
+	// The key ring was seen absent (or freshly created) when the import was decided.
+	// If someone has filled it since then, replacing its content would lose their updates.
+	expectEmpty bool
+
 	oldKeys    []asn1.Key
 	oldCurrent int
 }
 
 func (tx *txSetKeys) Apply(ring *KeyRing) error {
+	if tx.expectEmpty && (len(ring.data.Keys) != 0 || ring.data.Current != asn1.NoKey) {
+		return errTxConcurrentModification
+	}
 	tx.oldKeys = ring.data.Keys
 	tx.oldCurrent = ring.data.Current
 	ring.data.Keys = tx.newKeys
